@@ -44,6 +44,7 @@ def compare(rep, rule, site, k, got, want, what):
 def run(prog: Program, rep: Report, tier: str):
     rule_formula(prog, rep)
     rule_leaky_ctor(prog, rep)
+    rule_planar_wiring(prog, rep)
     rule_tri(prog, rep)
     rule_perm(prog, rep)
     rule_spline(prog, rep)
@@ -89,6 +90,20 @@ def rule_formula(prog, rep):
             rep.undecided("C07.formula", site, f"_UnconditionalPlanar.{f}", "field not assigned in __init__")
             continue
         compare(rep, "C07.formula", site, f"_UnconditionalPlanar.__init__:{f}", fields[f], want[f], f"field {f}")
+
+
+def rule_planar_wiring(prog, rep):
+    rep.rule("C07.planar", "Planar splits its 2*dim+1 parameters as w = params[:dim], u = params[dim:2*dim], "
+                           "b = params[-1] (from the conditioner when conditional, else the stored vector) and builds the "
+                           "unconditional planar layer (weight, act_scale, bias, negative_slope) from them", minimum=1)
+    c = prog.cls("flowjax.bijections.planar.Planar")
+    ref = ("def get_planar(self, condition=None):\n"
+           "    params = self.conditioner(condition) if self.cond_shape is not None else self.params\n"
+           "    dim = self.shape[0]\n"
+           "    return _UnconditionalPlanar(params[:dim], params[dim:2 * dim], params[-1], self.negative_slope)\n")
+    got = Interp(prog).eval_method(c, "get_planar", [COND])
+    want = eval_ref_method(prog, c, ref, [COND])
+    compare(rep, "C07.planar", method_site(prog, c, "get_planar"), "Planar.get_planar", got, want, "planar layer")
 
 
 def rule_leaky_ctor(prog, rep, R="C07.tangent"):
